@@ -41,10 +41,7 @@ def Probe.receiveAck (p : Probe) (src : Id) (n : Nat) : Probe :=
   if n == p.number && p.isProbing src then { p with directAckOk := true } else p
 
 /-- `Vec::swap_remove` -/
-def swapRemove (l : List α) (i : Nat) : List α :=
-  match l.getLast? with
-  | none => l
-  | some last => if i + 1 == l.length then l.dropLast else (l.set i last).dropLast
+def swapRemove (l : List α) (i : Nat) : List α := swapRemoveAt l i
 
 /-- `Probe::receive_indirect_ack` -/
 def Probe.receiveIndirectAck (p : Probe) (src : Id) (n : Nat) : Probe :=
@@ -72,41 +69,38 @@ def chooseLoop (wanted : Nat) (pick : Member → Bool) : List Member → List Me
       else chooseLoop wanted pick rest out (seen + 1)
 
 /-- `Members::next` -/
-def membersNext : M (Option Member) := do
-  let s ← getS
-  if needsShuffle s.cursor s.ms.length then
-    let p ← drawPerm s.ms.length
-    let ms := permute s.ms p
-    let r := nextPure ms 0
-    setS { s with ms := ms, cursor := r.2 }
-    pure r.1
+def membersNext : M (Option Member) := fun c =>
+  if needsShuffle c.s.cursor c.s.ms.length then
+    match drawShuffle c.s.ms c with
+    | .ok ms c1 =>
+      let r := nextPure ms 0
+      .ok r.1 { c1 with s := { c1.s with ms := ms, cursor := r.2 } }
+    | .err e c1 => .err e c1
+    | .stuck x => .stuck x
   else
-    let c := match s.cursor with | .at i => i | .max => 0
-    let r := nextPure s.ms c
-    setS { s with cursor := r.2 }
-    pure r.1
-
-/-- `Members::apply` -/
-def membersApply (u : Member) : M Summary := do
-  let s ← getS
-  match applyExisting s.ms u (fun _ => true) with
-  | some (ms', sm) =>
-    setS { s with ms := ms', numActive := adjustActive s.numActive sm }
-    pure sm
-  | none =>
-    let j ← drawIdx .choose (s.ms.length + 1)
-    let r := applyNew s.ms u j
-    setS { s with ms := r.1, numActive := if u.active then s.numActive + 1 else s.numActive }
-    pure r.2
+    let i := match c.s.cursor with | .at i => i | .max => 0
+    let r := nextPure c.s.ms i
+    .ok r.1 { c with s := { c.s with cursor := r.2 } }
 
 /-- `Members::apply_existing_if` on the instance -/
-def membersApplyExistingIf (u : Member) (cond : Member → Bool) : M (Option Summary) := do
-  let s ← getS
-  match applyExisting s.ms u cond with
+def membersApplyExistingIf (u : Member) (cond : Member → Bool) : M (Option Summary) := fun c =>
+  match applyExisting c.s.ms u cond with
   | some (ms', sm) =>
-    setS { s with ms := ms', numActive := adjustActive s.numActive sm }
-    pure (some sm)
-  | none => pure none
+    .ok (some sm) { c with s := { c.s with ms := ms', numActive := adjustActive c.s.numActive sm } }
+  | none => .ok none c
+
+/-- `Members::apply` -/
+def membersApply (u : Member) : M Summary := fun c =>
+  match applyExisting c.s.ms u (fun _ => true) with
+  | some (ms', sm) =>
+    .ok sm { c with s := { c.s with ms := ms', numActive := adjustActive c.s.numActive sm } }
+  | none =>
+    match drawIdx .choose (c.s.ms.length + 1) c with
+    | .ok j c1 =>
+      let r := applyNew c.s.ms u j
+      .ok r.2 { c1 with s := { c1.s with ms := r.1, numActive := if u.active then c.s.numActive + 1 else c.s.numActive } }
+    | .err e c1 => .err e c1
+    | .stuck x => .stuck x
 
 /-! ### sending -/
 
@@ -203,7 +197,7 @@ def reset : M Unit :=
 def becomeDisconnected : M Unit := do
   let s ← getS
   if E.debug && s.numActive != 0 then panicAt .disconnectedMembers else
-  setS { s with conn := .disconnected, token := wrapAdd8 s.token, probe := s.probe.clear }
+  modS fun s => { s with conn := .disconnected, token := wrapAdd8 s.token, probe := s.probe.clear }
   emit (.notify .idle)
 
 /-- `Foca::become_undead` -/
@@ -215,7 +209,7 @@ def becomeUndead : M Unit := do
 def becomeConnected : M Unit := do
   let s ← getS
   if E.debug && s.numActive == 0 then panicAt .connectedNoMembers else
-  setS { s with conn := .connected }
+  modS fun s => { s with conn := .connected }
   emit (.timer s.cfg.probePeriod (.probe s.token))
   match s.cfg.pa with
   | some p => emit (.timer p.freq (.pa s.token))
@@ -269,7 +263,7 @@ def changeIdentity (newId : Id) (pol : Policy) : M Unit := do
   if s.id == newId then throwE .sameIdentity else
   let prevDown := s.conn == .undead
   let prev := s.id
-  setS { s with id := newId, policy := pol }
+  modS fun s => { s with id := newId, policy := pol }
   reset
   if !prevDown then addUpdate E ⟨prev, 0, .down⟩
   gossip E
@@ -355,9 +349,9 @@ def addBroadcast (data : Bytes) : M Bool := do
   else
     match E.handler.receive s.hst data none with
     | none => throwE .custom
-    | some (none, h') => do setS { s with hst := h' }; pure false
+    | some (none, h') => do modS (fun s => { s with hst := h' }); pure false
     | some (some key, h') => do
-      setS { s with hst := h', custom := addOrReplace s.custom E.handler.invalidates key data s.cfg.maxTx }
+      modS fun s => { s with hst := h', custom := addOrReplace s.custom E.handler.invalidates key data s.cfg.maxTx }
       pure true
 
 /-- `Foca::reuse_down_identity` -/
@@ -369,7 +363,7 @@ def reuseDownIdentity : M Unit := do
 def setConfig (cfg : Config) : M Unit := do
   let s ← getS
   if Gen.setConfigInvalid s.cfg cfg then throwE .invalidConfig
-  else setS { s with cfg := cfg, sendCap := if s.cfg.mps != cfg.mps then cfg.mps else s.sendCap }
+  else modS fun s => { s with cfg := cfg, sendCap := if s.cfg.mps != cfg.mps then cfg.mps else s.sendCap }
 
 /-- `Foca::probe_random_member` -/
 def probeRandomMember : M Unit := do
@@ -379,7 +373,7 @@ def probeRandomMember : M Unit := do
   if incomplete then modS fun s => { s with probe := s.probe.clear }
   let s ← getS
   let tf := s.probe.takeFailed
-  setS { s with probe := tf.2 }
+  modS fun s => { s with probe := tf.2 }
   match tf.1 with
   | some failed =>
     let asSuspect : Member := ⟨failed.id, failed.inc, .suspect⟩
@@ -410,7 +404,7 @@ def pingReqLoop (probed : Id) : List Id → M Unit
     if E.debug && !(match s.probe.direct with | some m => m.id != d | none => false) then
       panicAt .expectIndirect
     else
-    setS { s with probe := { s.probe with indirect := s.probe.indirect ++ [d] } }
+    modS fun s => { s with probe := { s.probe with indirect := s.probe.indirect ++ [d] } }
     sendMessage E d (.pingReq probed s.probe.number)
     pingReqLoop probed rest
 
@@ -420,7 +414,7 @@ def handleTimer (t : Timer) : M Unit := do
   match t with
   | .indirect probed tok =>
     if tok != s.token then pure () else
-    setS { s with probe := { s.probe with reached := true } }
+    modS fun s => { s with probe := { s.probe with reached := true } }
     if !s.probe.isProbing probed then pure ()
     else if s.probe.succeeded then pure ()
     else if !isActiveId s.ms probed then pure ()
@@ -437,7 +431,7 @@ def handleTimer (t : Timer) : M Unit := do
         if sm.applied && s.cfg.notifyDown then sendMessage E m .turnUndead
       | none => pure ()
     else pure ()
-  | .rm down => setS { s with ms := removeIfDown s.ms down }
+  | .rm down => modS fun s => { s with ms := removeIfDown s.ms down }
   | .probe tok =>
     if tok == s.token then
       if s.conn != .connected then throwE .notConnected else probeRandomMember E
@@ -493,9 +487,9 @@ def customLoop (sender : Option Id) : Nat → Bytes → M Unit
         let s ← getS
         match E.handler.receive s.hst pkt sender with
         | none => throwE .custom
-        | some (none, h') => setS { s with hst := h' }
+        | some (none, h') => modS fun s => { s with hst := h' }
         | some (some key, h') =>
-          setS { s with hst := h', custom := addOrReplace s.custom E.handler.invalidates key pkt s.cfg.maxTx }
+          modS fun s => { s with hst := h', custom := addOrReplace s.custom E.handler.invalidates key pkt s.cfg.maxTx }
         customLoop sender fuel (rest.drop len)
       | _ => throwE .malformed
     else if data.length > 0 then throwE .malformed
